@@ -915,3 +915,41 @@ frag_update_umi = Contract(
     assumptions=['mates of a pair carry the same SM / RX tags (C04); pysam tag table (A4)'],
 )
 UNITS += [set_sample, frag_update_umi]
+
+
+# ------------------------------------------------------------------------------ is_valid of the three fragment classes
+# "Valid fragments are partitioned into molecules": a fragment is valid iff it was not rejected (qc-fail), is not longer than the
+# limit (when one is set and its span is defined) and has what its class needs: a recognised cut site (NLA, CHIC) / a span (plain)
+def valid_fragment(cls, relpath, span_defined=True):
+    def mk(eng, name):
+        s, e_ = named(INT, 'span_start'), named(INT, 'span_end')
+        mx = named(INT, 'max_fragment_size')
+        eng.assume(z3.And(s.z >= 0, e_.z >= s.z, mx.z >= 0))
+        span = ('chr1', s, e_) if span_defined else (None, None, None)
+        eng.spec_env['SPAN_DEFINED'] = span_defined
+        limited = fresh(BOOL, 'size_limit_set')
+        return Obj(cls, {'qcfail': named(BOOL, 'qcfail'), 'span': span, 'found_valid_site': named(BOOL, 'found_valid_site'),
+                         'max_fragment_size': mx if eng.branch(limited.z) else None, 'meta': {}, 'reads': [None, None]},
+                   info=eng.loader.classref(relpath, cls))
+    return mk
+
+
+TOO_LONG = '(self.max_fragment_size is not None and SPAN_DEFINED and abs(self.span[2] - self.span[1]) > self.max_fragment_size)'
+
+
+def valid_unit(cls, relpath, needs_site):
+    want = '(not old(self).qcfail and not %s and %s)' % (TOO_LONG, 'self.found_valid_site' if needs_site else 'SPAN_DEFINED')
+    return Contract(
+        PROP, relpath + '::%s.is_valid' % cls, name='%s.is_valid' % cls,
+        params={'self': valid_fragment(cls, relpath)},
+        cases=[{}, {'self': valid_fragment(cls, relpath, False)}],
+        setup=lambda eng: eng.loader.call_hooks.__setitem__(
+            'singlecellmultiomics.fragment.fragment.Fragment.set_rejection_reason',
+            lambda e, f, a, k, n: (f.bound.attrs.__setitem__('qcfail', True) if k.get('set_qcfail') else None)),
+        ensures={'valid_iff_not_rejected_within_the_size_limit_and_complete': 'result == %s' % want},
+        raises={},
+        assumptions=['set_rejection_reason(set_qcfail=True) marks the fragment rejected (hook)'],
+    )
+
+
+UNITS += [valid_unit('NlaIIIFragment', FN, True), valid_unit('CHICFragment', FC, True), valid_unit('Fragment', FF, False)]
